@@ -127,6 +127,24 @@ def main():
     server = spawn_server(('127.0.0.1', 0))
     workers = []
     try:
+        # constructor options with falsy values survive a restart as they are (userid 0 / '' / (), a False set_names, an init_state of 0 or [])
+        from pyworkers.persistent_thread import PersistentThreadWorker
+        from pyworkers.persistent_process import PersistentProcessWorker
+        for cls in (PersistentThreadWorker, PersistentProcessWorker):
+            for uid in (0, '', ()):
+                for st in (0, []):
+                    w = cls(T.square, name='falsy', userid=uid, set_names=False, init_state=st)
+                    workers.append(w)
+                    try:
+                        w.restart(timeout=3)
+                    except Exception as e:     # noqa
+                        viol.append(f'{cls.__name__}/falsy options: restart raised {type(e).__name__}: {e}')
+                        continue
+                    got = (w.userid, getattr(w, '_set_names', None), w.user_state)
+                    if w.userid != uid or type(w.userid) is not type(uid) or w._set_names is not False or w.user_state != st or type(w.user_state) is not type(st):
+                        viol.append(f'{cls.__name__}: constructor options with falsy values changed across restart(): userid {uid!r} -> {w.userid!r}, '
+                                    f'set_names False -> {w._set_names!r}, user_state {st!r} -> {w.user_state!r}')
+                    w.terminate(timeout=2)
         for kind in sc.get('kinds', ['thread', 'process', 'remote']):
             for state in ('fresh', 'unread', 'queued', 'closed', 'died', 'killed'):
                 if state == 'killed' and kind == 'thread':
